@@ -103,10 +103,13 @@ pub fn run(seed: u64, n: usize, outdir: &str, _corpus: Option<&str>) -> std::io:
         let small: Vec<SrcRow> = rows.iter().map(|r| SrcRow { lid: r.lid % 4, rid: r.rid % 4, ..r.clone() }).collect();
         let csv2 = render(&mut rng, &small);
         let do_build = wellformed && i % 4 == 0;
+        let reload = rng.chance(1, 2);
         let stored = if !do_build { Outcome::Err } else { guarded(move || {
             let mut m = String::from("4 4\n");
             for r in 0..4 { for l in 0..4 { m.push_str(&format!("{} {} 0\n", r, l)); } }
-            vibrato::SystemDictionaryBuilder::from_readers(csv2.as_bytes(), m.as_bytes(), "DEFAULT 0 1 0\n".as_bytes(), "DEFAULT,0,0,1,u\n".as_bytes())
+            let d = vibrato::SystemDictionaryBuilder::from_readers(csv2.as_bytes(), m.as_bytes(), "DEFAULT 0 1 0\n".as_bytes(), "DEFAULT,0,0,1,u\n".as_bytes())?;
+            // half of the compiled dictionaries are observed after a write / read round trip
+            if reload { let mut buf = vec![]; d.write(&mut buf)?; vibrato::Dictionary::read(&buf[..]) } else { Ok(d) }
         }) };
         let nkept = rows.iter().filter(|r| !r.surface.is_empty()).count();
         let stored_t = match &stored {
@@ -120,6 +123,26 @@ pub fn run(seed: u64, n: usize, outdir: &str, _corpus: Option<&str>) -> std::io:
             Outcome::Panic => "Panic".to_string(),
         };
         let stored_t = if do_build { format!("(Some {})", stored_t) } else { "None".to_string() };
+        // the same CSV loaded as a USER lexicon (Lexicon::from_reader path) into a one-word dictionary
+        let csv3 = render(&mut rng, &small);
+        let user_t = if !do_build { "None".to_string() } else {
+            let loaded = guarded(move || {
+                let mut m = String::from("4 4\n");
+                for r in 0..4 { for l in 0..4 { m.push_str(&format!("{} {} 0\n", r, l)); } }
+                let d = vibrato::SystemDictionaryBuilder::from_readers("z,0,0,1,base\n".as_bytes(), m.as_bytes(), "DEFAULT 0 1 0\n".as_bytes(), "DEFAULT,0,0,1,u\n".as_bytes())?;
+                d.reset_user_lexicon_from_reader(Some(csv3.as_bytes()))
+            });
+            match &loaded {
+                Outcome::Ok(d) => {
+                    let fs = std::panic::catch_unwind(std::panic::AssertUnwindSafe(|| (0..nkept)
+                        .map(|i| d.word_feature(vibrato::dictionary::WordIdx { lex_type: vibrato::dictionary::LexType::User, word_id: i as u32 }).to_string())
+                        .collect::<Vec<String>>()));
+                    match fs { Ok(fs) => format!("(Some (Ok {}))", clist(&fs, |f| cbytes(f.as_bytes()))), Err(_) => "(Some Panic)".to_string() }
+                }
+                Outcome::Err => "(Some Err)".to_string(),
+                Outcome::Panic => "(Some Panic)".to_string(),
+            }
+        };
         // homographs as the tokenizer finds them: every distinct surface tokenized as a sentence; the
         // system-lexicon nodes spanning the whole sentence, in lattice order, are its homographs
         let mut homs: Vec<(String, Vec<u64>)> = vec![];
@@ -148,11 +171,11 @@ pub fn run(seed: u64, n: usize, outdir: &str, _corpus: Option<&str>) -> std::io:
             }
         }
         let term = format!(
-            "(Build_c11case {} {} {} {} {} {})",
+            "(Build_c11case {} {} {} {} {} {} {})",
             cbool(wellformed), cbytes(text.as_bytes()),
             clist(&rows, |r| crow(&r.surface, r.lid, r.rid, r.cost, &r.feature_raw)),
             cres(&parsed, |v| clist(v, |(s, l, r, c, f)| crow(s, *l, *r, *c, f))),
-            stored_t,
+            stored_t, user_t,
             clist(&homs, |(s, v)| format!("({}, {})", cbytes(s.as_bytes()), clist(v, |x| format!("{}", x))))
         );
         let human = format!("wellformed={} csv={}", wellformed, json_str(&text));
